@@ -583,7 +583,17 @@ func loadEvent(u Universe, path []Call, text string, viaUnmarshal bool) {
 	fp0 := fullFP(x)
 	ref, has := refDecode(x, []byte(text))
 	var lerr error
+	// loads that FAIL half way, and one that succeeds, on OTHER containers of the same kind right before the load under test:
+	// nothing a loader leaves behind (decode buffers, spare arrays, pools) may reach another container
+	others := []Inst{u.New(), replay(u, path)}
 	ci := invoke(e, func() {
+		for i, o := range others {
+			for _, bad := range []string{`[7,8,"x"]`, `{"7":8,"9":"x"}`, `[5,6`, text} {
+				if i == 0 || bad != text {
+					o.Target().(jsonable).FromJSON([]byte(bad))
+				}
+			}
+		}
 		if viaUnmarshal {
 			lerr = json.Unmarshal([]byte(text), x.Target())
 		} else {
